@@ -3,14 +3,14 @@
    types; Z, positive, N, nat stay the Coq inductives; no Extract Constant. *)
 From Coq Require Import Extraction ExtrOcamlBasic ZArith List.
 From Rosed Require Import Base.Cls Base.Res Base.ListX Base.Utf8 Base.Str Base.Intervals
-     Gem.Break Gem.Dfa Gem.Segment Gem.GString
+     Gem.Break Gem.Dfa Gem.Segment Gem.GString Gem.GHeap
      Model.Util Model.Tb Model.Manip Model.Table Model.Options Model.Editor Model.Ops Model.Hist
      Check.Common Check.Select Check.Layout Check.Blocks Check.Paras
      Inst.Go Inst.GoUpper.
 Extraction Language OCaml.
 Separate Extraction
   Inst.Go.GoClassifier Inst.Go.class_of_bits Inst.Go.go_class_of Inst.GoUpper.GoUpper Inst.Go.bits Inst.Go.class_of_tabs gen.Tables.go_tables
-  Gem.Segment.clusters Gem.Segment.split_runes Gem.Break.split
+  Gem.GHeap.grun Gem.GHeap.heap0 Gem.GHeap.rd Gem.Segment.clusters Gem.Segment.split_runes Gem.Break.split
   Base.Utf8.decode Base.Utf8.encode Base.Utf8.valid_utf8
   Model.Hist.run_hist Model.Hist.observe Model.Hist.run_op
   Model.Options.with_defaults Model.Options.options_eqb Check.Select.commit_expected Model.Util.range_to_indexes
